@@ -195,9 +195,92 @@ pub fn check_malformed(rep: &mut Report, s: &str) {
     }
 }
 
+/// canonical rendering of a parsed constraint of the kinds the Lean model covers (StamModel/StamqlC.lean); None for the others
+fn render_cn(c: &Constraint) -> Option<String> {
+    let q = |x: &SelectionQualifier| if *x == SelectionQualifier::Metadata { "M" } else { "N" };
+    Some(match c {
+        Constraint::Id(s) => format!("id {}", hex(s)),
+        Constraint::DataSet(s, x) => format!("dataset {} {}", hex(s), q(x)),
+        Constraint::DataSetVariable(v, x) => format!("datasetvar {} {}", hex(v), q(x)),
+        Constraint::SubStore(Some(s)) => format!("substore {}", hex(s)),
+        Constraint::SubStore(None) => "substore ~".to_string(),
+        Constraint::SubStoreVariable(v) => format!("substorevar {}", hex(v)),
+        Constraint::Text(s, m) => format!("text {} {}", hex(s), if *m == TextMode::CaseInsensitive { 1 } else { 0 }),
+        Constraint::TextVariable(v) => format!("textvar {}", hex(v)),
+        Constraint::Regex(r) => format!("regex {}", hex(r.as_str())),
+        Constraint::DataKey { set, key, qualifier } => format!("datakey {} {} {}", hex(set), hex(key), q(qualifier)),
+        Constraint::KeyValue { set, key, operator, qualifier } => format!("keyvalue {} {} {} {:?}", hex(set), hex(key), q(qualifier), operator),
+        Constraint::DataVariable(v, x) => format!("datavar {} {}", hex(v), q(x)),
+        Constraint::KeyValueVariable(v, operator, x) => format!("keyvaluevar {} {} {:?}", hex(v), q(x), operator),
+        _ => return None,
+    })
+}
+
+/// `ql cn <hex text> <regexes valid>`: `Constraint::parse` on the text, and `to_string` of what it parsed
+fn cn_exec(text: &str) -> String {
+    match guarded(std::panic::AssertUnwindSafe(|| stam::verif_hooks::verif_parse_constraint(text).map(|(c, r)| (render_cn(&c), r.to_string(), c.to_string().ok())).map_err(|e| format!("{}", e)))) {
+        Err(m) => format!("panic:{}", m.chars().take(60).collect::<String>()),
+        Ok(Err(_)) => "err".into(),
+        Ok(Ok((None, _, _))) => "unmodelled".into(),
+        Ok(Ok((Some(r), rest, printed))) => format!("ok | {} | {} | {}", r, hex(&rest), match (&printed, r.contains("var ")) { (Some(p), false) => hex(p), _ => "~".into() }),
+    }
+}
+
+pub fn constraint_stream(rep: &mut Report) {
+    let ids: [&str; 16] = ["x", "my id", "", "\u{e9}t\u{e9}", "semi;colon", "http://ex.org/ns#p", "?x", "?", "AS", "RECURSIVE", "NONE", "a OR b", "]", "TARGET", "a(b", "tab\there"];
+    let quals = [SelectionQualifier::Normal, SelectionQualifier::Metadata];
+    let mut texts: Vec<String> = vec![];
+    let mut push = |c: Constraint| { if let Ok(t) = c.to_string() { texts.push(t); } };
+    for s in ids {
+        push(Constraint::Id(s));
+        push(Constraint::SubStore(Some(s)));
+        push(Constraint::Text(s, TextMode::Exact));
+        push(Constraint::Text(s, TextMode::CaseInsensitive));
+        if let Ok(r) = regex::Regex::new(s) { push(Constraint::Regex(r)); }
+        for q in quals {
+            push(Constraint::DataSet(s, q));
+            push(Constraint::DataSetVariable(s, q));
+            push(Constraint::DataVariable(s, q));
+            push(Constraint::DataKey { set: s, key: "k", qualifier: q });
+            push(Constraint::DataKey { set: "s", key: s, qualifier: q });
+        }
+        push(Constraint::TextVariable(s));
+        push(Constraint::SubStoreVariable(s));
+    }
+    push(Constraint::SubStore(None));
+    for op in operators() {
+        // floats whose Debug rendering is their literal
+        let lit_ok = |f: &f64| format!("{:?}", f) == format!("{}", f) || format!("{:?}", f) == format!("{}.0", f);
+        let ok = match &op { DataOperator::EqualsFloat(f) | DataOperator::GreaterThanFloat(f) | DataOperator::GreaterThanOrEqualFloat(f) | DataOperator::LessThanFloat(f) | DataOperator::LessThanOrEqualFloat(f) => lit_ok(f) && f.abs() < 1e15 && (*f == 0.0 || f.abs() > 1e-4) && !(*f == 0.0 && f.is_sign_negative()), DataOperator::Not(b) => match &**b { DataOperator::EqualsFloat(f) => lit_ok(f) && f.abs() < 1e15, _ => true }, _ => true };
+        if !ok { continue; }
+        for q in quals {
+            push(Constraint::KeyValue { set: "s", key: "my key", operator: op.clone(), qualifier: q });
+            push(Constraint::KeyValueVariable("v", op.clone(), q));
+        }
+    }
+    let frags = ["DATASET AS METADATA RECURSIVE \"x\";", "DATASET AS TARGET \"x\";", "DATASET RECURSIVE x;", "DATASET AS FOO \"x\";", "DATA ?v = 5;", "DATA ?v;", "DATA ?v", "DATA \"s\" \"k\"", "DATA \"s\" \"k\" OR ", "DATA \"s\" \"k\" ]", "DATA \"s\" \"k\" >", "DATA \"s\";", "DATA  \"s\"   \"k\"  >=  3 ;", "DATA \"s\" \"k\" = \"a|b\";", "DATA \"s\" \"k\" = 1|2;", "DATA \"s\" \"k\" != 2024-01-01T00:00:00+00:00;", "DATA \"s\" \"k\" = -;", "DATA RECURSIVE \"s\" \"k\";",
+        "TEXT AS REGEXP \"a(\";", "TEXT AS REGEXP \"a+\";", "TEXT AS FOO \"x\";", "TEXT AS NOCASE ?t;", "TEXT AS;", "TEXT ?;", "TEXT x y;", "SUBSTORE NONE;", "SUBSTORE \"\";", "SUBSTORE ?;", "SUBSTORE;", "ID x;", "ID;", "ID", "ID\t\"x\";", "ID\n\"x\" ; ID \"y\";", "  ID \"x\";  ", "ID \"x\"", "ID \"x\" OR ID \"y\"", "IDX \"x\";", "id \"x\";", "TEXT\u{a0}\"x\";", "DATASET\u{3000}\"x\";"];
+    for f in frags { texts.push(f.to_string()); }
+    let tails = ["", " ID \"y\";", " }", "\n\tTEXT \"z\"; "];
+    for t in &texts {
+        for tail in tails {
+            let text = format!("{}{}", t, tail);
+            // every quoted piece is a valid regular expression (the model takes the verdict of the regex library as a parameter)
+            let reok = text.split('"').skip(1).step_by(2).all(|p| regex::Regex::new(p).is_ok());
+            let line = format!("ql cn {} {}", hex(&text), reok as u8);
+            let a = cn_exec(&text);
+            rep.count(&format!("cn:{}", a.split(' ').next().unwrap_or("?")));
+            if a == "unmodelled" { continue; }
+            rep.case(Some(&line));
+            rep.model_case(vec![line], vec![a], "constraint");
+        }
+    }
+}
+
 pub fn exec_line(line: &str) -> String {
     let t: Vec<&str> = line.split_whitespace().collect();
     match t.as_slice() {
+        ["ql", "cn", h, _] => cn_exec(&crate::fam::store::unhex_s(h)),
         ["ql", "arg", ..] | ["ql", "type", ..] | ["ql", "op", ..] => lex_exec(line),
         ["ql", "parse", h] => {
             let s = crate::fam::store::unhex_s(h);
@@ -229,6 +312,7 @@ pub fn run(opts: &Opts) -> Report {
     }
     built_stream(&mut rep);
     lexical_stream(&mut rep, &mut g, if opts.thorough() { 20000 } else { 2000 });
+    constraint_stream(&mut rep);
     // every truncation of a few long queries (every character boundary)
     for _ in 0..(if opts.thorough() { 200 } else { 30 }) {
         let s0 = g.query();
